@@ -6,4 +6,4 @@ WC=/tmp/mwc-$$
 git -C /repo worktree add -q --detach $WC HEAD || exit 3
 ( cd $WC && git apply /verif/seeded/$id/patch.diff ) || { echo "patch does not apply"; git -C /repo worktree remove --force $WC; exit 3; }
 VERIF_REPO=$WC /verif/check $chk $tier 2>&1 | grep -E "VIOLATION|KNOWN|exit|INCONCL" | cut -c1-400 | head -${LINES_MAX:-12}
-git -C /repo worktree remove --force $WC; rm -rf $WC; git -C /repo worktree prune
+git -C /repo worktree remove --force $WC; rm -rf $WC /verif/.build/bin-$(basename $WC); git -C /repo worktree prune
